@@ -412,7 +412,7 @@ func init() {
 			return m
 		},
 		NumCases: func(c *core.Ctx) int {
-			return len(c05forms())*len(c05kinds())*len(c05positions) + c.Pick(3000, 60000)
+			return len(c05forms())*len(c05kinds())*len(c05positions) + c.Pick(6000, 120000)
 		},
 		Run: runC05,
 		Floors: func(a *core.Agg) []string {
